@@ -14,6 +14,7 @@
 -/
 import BumpverVerif.Gen.F_isValidVersion
 import BumpverVerif.Proofs.Tie_parseVersionTags
+set_option linter.unusedSimpArgs false
 namespace BV
 
 attribute [local irreducible] isValid parseVersionInfo incr v1IsValid v1ParseVersionInfo v1Incr
@@ -25,12 +26,17 @@ theorem isNewPattern_gen (pat : Str) :
     ((!isInfix "{".toList pat) && (!isInfix "}".toList pat)) = isNewPattern pat := by
   rw [isInfix_lbrace, isInfix_rbrace]; rfl
 
+/-- the same test written `not ("{" in p or "}" in p)` -/
+theorem isNewPattern_gen' (pat : Str) :
+    (!((isInfix "{".toList pat) || (isInfix "}".toList pat))) = isNewPattern pat := by
+  rw [Bool.not_or, isNewPattern_gen]
+
 theorem tie_isValidVersion_new (today : Date) (vcs_get_tags : Bool → GenC.TagScope → List Str)
     (pat old new : Str) (unique : Bool) (hp : isNewPattern pat = true) :
     GenC.isValidVersion today vcs_get_tags pat old new unique
       = liftV2 ((gate pat old new unique (vcs_get_tags false .GLOBAL) today).map GateVerdict.toBool) := by
   unfold GenC.isValidVersion
-  simp only [isNewPattern_gen, hp, if_true]
+  simp only [isNewPattern_gen, isNewPattern_gen', hp, if_true]
   try simp only [verLt_eq_not_verLe, Bool.not_not]
   unfold gate pyV2ParseVersionInfo pepLe
   cases hpv : parseVersionInfo new pat today with
@@ -51,7 +57,7 @@ theorem tie_isValidVersion_legacy (today : Date) (vcs_get_tags : Bool → GenC.T
     GenC.isValidVersion today vcs_get_tags pat old new unique
       = liftV1 ((v1Gate pat old new unique (vcs_get_tags false .GLOBAL)).map GateVerdict.toBool) := by
   unfold GenC.isValidVersion
-  simp only [isNewPattern_gen, hp, Bool.false_eq_true, if_false]
+  simp only [isNewPattern_gen, isNewPattern_gen', hp, Bool.false_eq_true, if_false]
   try simp only [verLt_eq_not_verLe, Bool.not_not]
   unfold v1Gate pyV1ParseVersionInfo pepLe
   cases hpv : v1ParseVersionInfo new pat with
